@@ -40,7 +40,7 @@ def evaluate(ctx, res, spec, start, ext_ops, cfg, pre_start_ops=()):
   # ---- start observations
   if st['rest'] != names[m.cur]:
     return bad('C23', 'C23/state-name-after-start', 'state_name %r after start_at, current state is %s' % (st['rest'], names[m.cur]))
-  if st['state_fn'] is not res.run.fns[m.cur] and st['state_fn'] is not res.run.raw[m.cur]:
+  if not res.run.is_handler_of(st['state_fn'], m.cur):
     return bad('C23', 'C23/state-fn-after-start', 'state_fn %r after start_at, current state is %s' % (st['state_fn'], names[m.cur]))
   if instr and st['cur'] != names[m.cur]:
     return bad('C23', 'C23/current-state-after-start', 'current_state() %r after start_at, current state is %s' % (st['cur'], names[m.cur]))
@@ -114,7 +114,7 @@ def evaluate(ctx, res, spec, start, ext_ops, cfg, pre_start_ops=()):
       ctx.count('name_observations')
       if rec['rest'] != names[m.cur]:
         return bad('C23', 'C23/state-name-after-step', 'state_name %r after step %d (%s), current state is %s' % (rec['rest'], i, want, names[m.cur]), failing_step=i)
-      if rec['state_fn'] is not res.run.fns[m.cur] and rec['state_fn'] is not res.run.raw[m.cur]:
+      if not res.run.is_handler_of(rec['state_fn'], m.cur):
         return bad('C23', 'C23/state-fn-after-step', 'state_fn %r after step %d, current state is %s' % (rec['state_fn'], i, names[m.cur]), failing_step=i)
       if instr and rec['cur'] != names[m.cur]:
         return bad('C23', 'C23/current-state-after-step', 'current_state() %r after step %d, current state is %s' % (rec['cur'], i, names[m.cur]), failing_step=i)
